@@ -46,12 +46,35 @@ def exemptFunctions : List String := [
   -- definitional
   "terminal", "phrase", "dep", "fromJSON", "getLexicon", "getRules", "Lexicon.getLexicalInfo", "load",
   -- notation converters and lemmatizer (not part of realization)
-  "Dependent.toConstituent", "Dependent.toConstituent.build_phrase", "Phrase.toDependent", "Phrase.toDependent.makeDep",
-  "Terminal.toDependent",
+  -- (their private helpers build_phrase / makeDep … are derived: `Gen.Sites.derivedExempt`, checked by `derivedOK`)
+  "Dependent.toConstituent", "Phrase.toDependent", "Terminal.toDependent",
   "addLemma", "buildLemmataMap", "expandConjugation", "jsrExpInit",
   -- warning sentences
-  "ConstituentEn.warning", "ConstituentFr.warning", "ConstituentEn.warning.makeDisj", "ConstituentFr.warning.makeDisj",
+  "ConstituentEn.warning", "ConstituentFr.warning",
   -- unused helper (no caller in the library)
   "Constituent.getParentLang"]
+
+/-- last segment of a qualified function name (the call graph is name-based) -/
+def lastSeg : List Char → List Char → List Char
+  | [], acc => acc.reverse
+  | c :: cs, acc => if c = '.' then lastSeg cs [] else lastSeg cs (c :: acc)
+
+def bareName (f : String) : String := String.ofList (lastSeg f.toList [])
+
+/-- the functions that call `f` according to the name-based call graph, `f` itself apart -/
+def callersOf (g : List (String × String)) (f : String) : List String :=
+  ((g.filter (fun p => p.2 == bareName f)).map (·.1)).filter (fun c => c != f)
+
+/-- a private helper is exempt when it is reachable only from exempt functions: all its callers are exempt roots or
+    helpers listed BEFORE it (so the justification is well founded).  `Gen.Sites.derivedExempt` is the certificate the
+    translator computes; this is its check. -/
+def derivedOK (g : List (String × String)) (roots : List String) : List String → List String → Bool
+  | _, [] => true
+  | before, f :: rest =>
+    (!(callersOf g f).isEmpty && (callersOf g f).all (fun c => roots.contains c || before.contains c)) &&
+      derivedOK g roots (before ++ [f]) rest
+
+/-- exempt = an exempt root or a certified private helper of exempt functions -/
+def isExempt (f : String) : Bool := exemptFunctions.contains f || derivedExempt.contains f
 
 end Pyrealb.LangSites
